@@ -32,7 +32,7 @@ def build(tier: str) -> list[Obligation]:
     for n in ():
         pass
     for n in ((0, 1, 2, 3) if thorough else (0, 2)):
-        src = e1.make_module(PRELUDE, "h", "raises: bool, s0: int, s1: int", ["-2147483648 <= s0 <= 2147483647", "-2147483648 <= s1 <= 2147483647"],
+        src = e1.make_module(PRELUDE, "h", "raises: int, s0: int, s1: int", ["0 <= raises <= 4", "-2147483648 <= s0 <= 2147483647", "-2147483648 <= s1 <= 2147483647"],
                              f"return remote_body_failure_ok({n}, raises, [s0, s1])\n")
         obs.append(Obligation(name=f"remote_body_{n}sends", module_src=src, fn="h", timeout=t, meta={"kind": "body", "sends": n}))
     return obs
@@ -62,8 +62,7 @@ def run(tier: str) -> Outcome:
             "dropping the channel = explicit Channel.__del__ + removal of the weak-table entry (what CPython refcounting does at the last `del`)",
         ],
         bounds=("callback failure: 3 (thorough 2-4) items on the failing channel interleaved with 3 on a sibling channel, the failing item's "
-                "index symbolic (incl. 'never'), channel object alive / dropped symbolic; remote body: 0 and 2 (thorough 0-3) sends then raise / "
-                "no raise symbolic, sibling item values symbolic"),
+                "index symbolic (incl. 'never'), channel object alive / dropped symbolic; remote body: 0 and 2 (thorough 0-3) sends then no raise / ValueError / SystemExit / an exception class of the body / sys.exit (symbolic choice), sibling item values symbolic"),
         outside=["interleavings with user threads other than one waitclose() caller on the failing side", "exception texts other than the fixed token"],
         explanation=("bounded symbolic execution of the real callback-error path, close-error message handling and executetask error path over "
                      "scripted frame histories; oracle: peer gets earlier items, then exactly one RemoteError carrying type and message, then "
